@@ -16,7 +16,7 @@ EXPLANATION = (
     "with the E57 default namespace and one xmlns per extension; that the file header is patched last with "
     "physical_position/len/physical_size values; that data_offset and blob offsets come from physical_position, section and "
     "packet lengths are accounted with the value written into the headers, every packet and blob is followed by align; and "
-    "that every page written to the device is sealed with the big-endian CRC of its payload. Not decided: decoding the "
+    "that every page written to the device is sealed with the big-endian CRC of its payload. The writer side of the metadata maps (every descriptor field serialised under its own tag from the field of that name, C04-R1/R2). Not decided: decoding the "
     "file with an independent implementation and equality of the decoded content (run-time).")
 
 
@@ -26,6 +26,7 @@ def run(ctx):
     ctx.rule("R3", "the maximal XML skeleton is well-formed, carries the E57 default namespace and one xmlns:prefix per extension")
     ctx.rule("R4", "file header: xml offset/length/physical length dataflow, written last after the XML was flushed")
     ctx.rule("R5", "sections: data_offset provenance, packet/section length accounting, blob protocol with section length = header + data padded to 4, align after packets and blobs, section header patched at its start")
+    ctx.rule("R7", "decoded metadata equals what was handed over: every descriptor field is written under its own tag from the field of that name (shared with C04-R1/R2/R4)")
     ctx.rule("R6", "pages: sealed with the big-endian CRC before every device write; seeks flush first; constants 1024/1020/4 agree")
     for cfg in ["lib", "lib_crc32c"]:
         prog, info = load_program(cfg, "e57")
@@ -36,6 +37,7 @@ def run(ctx):
             xml_rules.vocabulary(ctx, prog, "R2", "R3")
             xml_rules.record_name_tables(ctx, prog, "R2")
             xml_rules.type_attributes(ctx, prog, "R2")
+            xml_rules.inverse_maps(ctx, prog, "R7", "R7", "R7")
         header_rules.publication_order(ctx, prog, "R4")
         pcw_rules.data_offset_provenance(ctx, prog, "R5")
         pcw_rules.packet_rules(ctx, prog, "R5", "R5", "R5")
